@@ -669,3 +669,246 @@ Proof.
   - eexists (firstn _ s), (skipn _ (skipn _ s)). rewrite firstn_skipn, firstn_skipn. reflexivity.
   - eexists (firstn _ s), (skipn _ (skipn _ s)). rewrite firstn_skipn, firstn_skipn. reflexivity.
 Qed.
+
+(* for every string (balanced or not) the output is a prefix followed by closing braces,
+   never more of them than the prefix leaves open (clamped depth) *)
+Lemma F_shape_all : forall s level sp len n,
+  exists p k r, F s level sp len n = p ++ repeat c_rbrace k /\ s = p ++ r /\
+                k <= cdepth_from (match sp with None => level | Some d => S d end) p.
+Proof.
+  induction s as [|c t IH]; intros level sp len n.
+  - destruct sp as [d|]; cbn [F].
+    + exists [], 1, []. repeat split. cbn [cdepth_from]. lia.
+    + exists [], level, []. repeat split. cbn [cdepth_from]. lia.
+  - destruct sp as [d|]; cbn [F]; unfold is_lbrace, is_rbrace.
+    + destruct (N.eqb c c_lbrace) eqn:El.
+      * destruct (IH level (Some (S d)) len n) as (p & k & r & H1 & H2 & H3).
+        exists (c :: p), k, r. rewrite H1, H2. repeat split. cbn [cdepth_from]. rewrite El. exact H3.
+      * destruct (N.eqb c c_rbrace) eqn:Er.
+        -- destruct d as [|d'].
+           ++ destruct (n <=? len + 1)%Z.
+              ** apply N.eqb_eq in Er; subst c. exists [], 1, (c_rbrace :: t). repeat split. cbn [cdepth_from]. lia.
+              ** destruct (IH 0 None (len + 1)%Z n) as (p & k & r & H1 & H2 & H3).
+                 exists (c :: p), k, r. rewrite H1, H2. repeat split. cbn [cdepth_from pred].
+                 rewrite El, Er. exact H3.
+           ++ destruct (IH level (Some d') len n) as (p & k & r & H1 & H2 & H3).
+              exists (c :: p), k, r. rewrite H1, H2. repeat split. cbn [cdepth_from pred].
+              rewrite El, Er. exact H3.
+        -- destruct (IH level (Some d) len n) as (p & k & r & H1 & H2 & H3).
+           exists (c :: p), k, r. rewrite H1, H2. repeat split. cbn [cdepth_from].
+           rewrite El, Er. exact H3.
+    + destruct (N.eqb c c_lbrace) eqn:El.
+      * destruct (Nat.eqb level 0 && bs_head t) eqn:Esp.
+        -- apply andb_prop in Esp as [E0 _]. apply Nat.eqb_eq in E0; subst level.
+           destruct (IH 0 (Some 0) len n) as (p & k & r & H1 & H2 & H3).
+           exists (c :: p), k, r. rewrite H1, H2. repeat split. cbn [cdepth_from]. rewrite El. exact H3.
+        -- destruct (IH (S level) None len n) as (p & k & r & H1 & H2 & H3).
+           exists (c :: p), k, r. rewrite H1, H2. repeat split. cbn [cdepth_from]. rewrite El. exact H3.
+      * destruct (N.eqb c c_rbrace) eqn:Er.
+        -- destruct level as [|l']; cbn [andb Nat.ltb Nat.leb pred].
+           ++ unfold is_brace, is_lbrace, is_rbrace. rewrite El, Er. cbn [orb].
+              destruct (IH 0 None len n) as (p & k & r & H1 & H2 & H3).
+              exists (c :: p), k, r. rewrite H1, H2. repeat split. cbn [cdepth_from pred].
+              rewrite El, Er. exact H3.
+           ++ destruct (IH l' None len n) as (p & k & r & H1 & H2 & H3).
+              exists (c :: p), k, r. rewrite H1, H2. repeat split. cbn [cdepth_from pred].
+              rewrite El, Er. exact H3.
+        -- cbn [andb]. unfold is_brace, is_lbrace, is_rbrace. rewrite El, Er. cbn [orb].
+           destruct (n <=? len + 1)%Z.
+           ++ exists [c], level, t. repeat split. cbn [cdepth_from]. rewrite El, Er. lia.
+           ++ destruct (IH level None (len + 1)%Z n) as (p & k & r & H1 & H2 & H3).
+              exists (c :: p), k, r. rewrite H1, H2. repeat split. cbn [cdepth_from].
+              rewrite El, Er. exact H3.
+Qed.
+
+Lemma F_shape_exact : forall s level sp len n,
+  ends_in_special_go s level sp = false ->
+  exists p k r, F s level sp len n = p ++ repeat c_rbrace k /\ s = p ++ r /\
+                k = cdepth_from (match sp with None => level | Some d => S d end) p.
+Proof.
+  induction s as [|c t IH]; intros level sp len n He.
+  - destruct sp as [d|]; cbn [ends_in_special_go] in He; [discriminate|].
+    exists [], level, []. repeat split.
+  - cbn [ends_in_special_go] in He. fold (bs_head t) in He.
+    destruct sp as [d|]; cbn [F]; unfold is_lbrace, is_rbrace.
+    + destruct (N.eqb c c_lbrace) eqn:El.
+      * destruct (IH level (Some (S d)) len n He) as (p & k & r & H1 & H2 & H3).
+        exists (c :: p), k, r. rewrite H1, H2. repeat split. cbn [cdepth_from]. rewrite El. exact H3.
+      * destruct (N.eqb c c_rbrace) eqn:Er.
+        -- destruct d as [|d'].
+           ++ destruct (n <=? len + 1)%Z.
+              ** apply N.eqb_eq in Er; subst c. exists [], 1, (c_rbrace :: t). repeat split.
+              ** destruct (IH 0 None (len + 1)%Z n He) as (p & k & r & H1 & H2 & H3).
+                 exists (c :: p), k, r. rewrite H1, H2. repeat split. cbn [cdepth_from pred].
+                 rewrite El, Er. exact H3.
+           ++ destruct (IH level (Some d') len n He) as (p & k & r & H1 & H2 & H3).
+              exists (c :: p), k, r. rewrite H1, H2. repeat split. cbn [cdepth_from pred].
+              rewrite El, Er. exact H3.
+        -- destruct (IH level (Some d) len n He) as (p & k & r & H1 & H2 & H3).
+           exists (c :: p), k, r. rewrite H1, H2. repeat split. cbn [cdepth_from].
+           rewrite El, Er. exact H3.
+    + destruct (N.eqb c c_lbrace) eqn:El.
+      * destruct (Nat.eqb level 0 && bs_head t) eqn:Esp.
+        -- apply andb_prop in Esp as [E0 _]. apply Nat.eqb_eq in E0; subst level.
+           destruct (IH 0 (Some 0) len n He) as (p & k & r & H1 & H2 & H3).
+           exists (c :: p), k, r. rewrite H1, H2. repeat split. cbn [cdepth_from]. rewrite El. exact H3.
+        -- destruct (IH (S level) None len n He) as (p & k & r & H1 & H2 & H3).
+           exists (c :: p), k, r. rewrite H1, H2. repeat split. cbn [cdepth_from]. rewrite El. exact H3.
+      * destruct (N.eqb c c_rbrace) eqn:Er.
+        -- destruct level as [|l']; cbn [andb Nat.ltb Nat.leb pred] in He |- *.
+           ++ unfold is_brace, is_lbrace, is_rbrace. rewrite El, Er. cbn [orb].
+              destruct (IH 0 None len n He) as (p & k & r & H1 & H2 & H3).
+              exists (c :: p), k, r. rewrite H1, H2. repeat split. cbn [cdepth_from pred].
+              rewrite El, Er. exact H3.
+           ++ destruct (IH l' None len n He) as (p & k & r & H1 & H2 & H3).
+              exists (c :: p), k, r. rewrite H1, H2. repeat split. cbn [cdepth_from pred].
+              rewrite El, Er. exact H3.
+        -- cbn [andb]. unfold is_brace, is_lbrace, is_rbrace. rewrite El, Er. cbn [orb].
+           destruct (n <=? len + 1)%Z.
+           ++ exists [c], level, t. repeat split. cbn [cdepth_from]. rewrite El, Er. reflexivity.
+           ++ destruct (IH level None (len + 1)%Z n He) as (p & k & r & H1 & H2 & H3).
+              exists (c :: p), k, r. rewrite H1, H2. repeat split. cbn [cdepth_from].
+              rewrite El, Er. exact H3.
+Qed.
+
+Lemma prefix_shape_exact_lemma s n out :
+  ends_in_special s = false -> bibtex_prefix s n = Ok out ->
+  exists p k, out = p ++ repeat c_rbrace k /\ is_prefix p s /\ k = cdepth_from 0 p.
+Proof.
+  unfold bibtex_prefix. intros He H. destruct (0 <? n)%Z eqn:En.
+  - apply Z.ltb_lt in En. inv_ok.
+    pose proof (prefix_fused s 0 None r 0 n 0 En Hr) as Hf. cbn beta iota in Hf.
+    unfold pfx in Hf. cbv zeta in Hf. rewrite Hf.
+    destruct (F_shape_exact s 0 None 0 n He) as (p & k & r' & H1 & H2 & H3).
+    exists p, k. split; [exact H1|]. split; [exists r'; exact H2|exact H3].
+  - inv_ok. exists [], 0. repeat split. exists s. reflexivity.
+Qed.
+
+Lemma prefix_is_prefix_lemma s n out :
+  bibtex_prefix s n = Ok out ->
+  exists p k, out = p ++ repeat c_rbrace k /\ is_prefix p s /\ k <= cdepth_from 0 p.
+Proof.
+  unfold bibtex_prefix. intros H. destruct (0 <? n)%Z eqn:En.
+  - apply Z.ltb_lt in En. inv_ok.
+    pose proof (prefix_fused s 0 None r 0 n 0 En Hr) as Hf. cbn beta iota in Hf.
+    unfold pfx in Hf. cbv zeta in Hf. rewrite Hf.
+    destruct (F_shape_all s 0 None 0 n) as (p & k & r' & H1 & H2 & H3).
+    exists p, k. split; [exact H1|]. split; [exists r'; exact H2|exact H3].
+  - inv_ok. exists [], 0. repeat split; [exists s; reflexivity|cbn; lia].
+Qed.
+
+(* ------------------------------------------------------------------ no foreign exception anywhere *)
+Lemma primitives_total_lemma s :
+  (too_deep 100 0 s = false /\
+   (exists n, bibtex_len s = Ok n) /\ (forall k, exists p, bibtex_prefix s k = Ok p) /\
+   (exists p, bibtex_purify s = Ok p) /\ (forall m, exists o, change_case s m = Ok o)) \/
+  (too_deep 100 0 s = true /\
+   bibtex_len s = PyErr E_BIBTEX (-1) /\
+   (forall k, (0 < k)%Z -> bibtex_prefix s k = PyErr E_BIBTEX (-1)) /\
+   bibtex_purify s = PyErr E_BIBTEX (-1) /\ (forall m, change_case s m = PyErr E_BIBTEX (-1))).
+Proof.
+  destruct (scan_total_lemma s) as [[Ht Hs]|[Ht [ts Hs]]]; [right|left]; (split; [exact Ht|]).
+  - unfold bibtex_len, bibtex_prefix, bibtex_purify, change_case. rewrite Hs. cbn [bind].
+    repeat split; auto. intros k Hk. apply Z.ltb_lt in Hk. rewrite Hk. reflexivity.
+  - unfold bibtex_len, bibtex_prefix, bibtex_purify, change_case. rewrite Hs. cbn [bind].
+    repeat split; eauto. intros k. destruct (0 <? k)%Z; eauto.
+Qed.
+
+(* ------------------------------------------------------------------ substring: negative start = mirror image *)
+Lemma mirror_nat {X} (s : list X) a b L : b + L + a = length s ->
+  firstn L (skipn b s) = rev (firstn L (skipn a (rev s))).
+Proof.
+  intros H. rewrite skipn_rev. replace (length s - a) with (b + L) by lia.
+  rewrite firstn_rev, rev_involutive, firstn_length.
+  replace (Nat.min (b + L) (length s) - L) with b by lia.
+  rewrite skipn_firstn_comm. f_equal. lia.
+Qed.
+
+Lemma substring_mirror_lemma s k l : (0 < k)%Z ->
+  bibtex_substring s (- k) l = rev (bibtex_substring (rev s) k l).
+Proof.
+  intros Hk. rewrite !substring_spec_lemma. unfold substring_spec. rewrite rev_length. cbv zeta.
+  set (n := Z.of_nat (length s)).
+  assert (Hn : n = Z.of_nat (length s)) by reflexivity.
+  destruct (l <=? 0)%Z eqn:E1; [reflexivity|].
+  replace (- k =? 0)%Z with false by (symmetry; apply Z.eqb_neq; lia).
+  replace (k =? 0)%Z with false by (symmetry; apply Z.eqb_neq; lia).
+  replace (Z.abs (- k)) with k by lia. replace (Z.abs k) with k by lia.
+  destruct (n <? k)%Z eqn:E3; cbn [orb]; [reflexivity|].
+  replace (0 <? - k)%Z with false by (symmetry; apply Z.ltb_ge; lia).
+  replace (0 <? k)%Z with true by (symmetry; apply Z.ltb_lt; lia).
+  zb. replace (- - k)%Z with k by lia.
+  apply mirror_nat. lia.
+Qed.
+
+Lemma firstn_min_length {X} (l : list X) a : firstn (Nat.min a (length l)) l = firstn a l.
+Proof.
+  destruct (Nat.le_gt_cases a (length l)) as [H|H].
+  - rewrite Nat.min_l by exact H. reflexivity.
+  - rewrite Nat.min_r by lia. rewrite firstn_all, firstn_all2 by lia. reflexivity.
+Qed.
+
+(* positive start: plain 1-based selection, clamped at the end of the string *)
+Lemma substring_positive_lemma s start len : (1 <= start)%Z ->
+  bibtex_substring s start len = firstn (Z.to_nat len) (skipn (Z.to_nat (start - 1)) s).
+Proof.
+  intros Hs. rewrite substring_spec_lemma. unfold substring_spec. cbv zeta.
+  set (n := Z.of_nat (length s)). assert (Hn : n = Z.of_nat (length s)) by reflexivity.
+  replace (start =? 0)%Z with false by (symmetry; apply Z.eqb_neq; lia).
+  replace (Z.abs start) with start by lia.
+  replace (0 <? start)%Z with true by (symmetry; apply Z.ltb_lt; lia).
+  destruct (len <=? 0)%Z eqn:E1; cbn [orb].
+  - zb. replace (Z.to_nat len) with 0 by lia. reflexivity.
+  - destruct (n <? start)%Z eqn:E3; zb.
+    + rewrite skipn_all2 by lia. destruct (Z.to_nat len); reflexivity.
+    + rewrite <- (firstn_min_length (skipn _ s) (Z.to_nat len)). f_equal. rewrite skipn_length. lia.
+Qed.
+
+(* ------------------------------------------------------------------ what the Spec's text length means *)
+Definition count_nonbrace (g : str) : nat := length (filter (fun c => negb (is_brace c)) g).
+
+Lemma text_len_special_go s : forall inner d k, depth_from k inner = Some 0 ->
+  text_len_go (inner ++ c_rbrace :: s) d (Some k) = S (text_len_go s 0 None).
+Proof.
+  induction inner as [|c t IH]; intros d k Hd; cbn [depth_from] in Hd.
+  - injection Hd as ->. reflexivity.
+  - cbn [app text_len_go]. destruct (N.eqb c c_lbrace); [apply IH; exact Hd|].
+    destruct (N.eqb c c_rbrace); [|apply IH; exact Hd].
+    destruct k; [discriminate|apply IH; exact Hd].
+Qed.
+
+Lemma text_len_group_go s : forall g k, depth_from k g = Some 0 ->
+  text_len_go (g ++ c_rbrace :: s) (S k) None = count_nonbrace g + text_len_go s 0 None.
+Proof.
+  induction g as [|c t IH]; intros k Hd; cbn [depth_from] in Hd.
+  - injection Hd as ->. reflexivity.
+  - cbn [app text_len_go]. unfold count_nonbrace, is_brace, is_lbrace, is_rbrace. cbn [filter].
+    destruct (N.eqb c c_lbrace) eqn:El; cbn [orb negb Nat.eqb andb].
+    + apply IH. exact Hd.
+    + destruct (N.eqb c c_rbrace) eqn:Er; cbn [negb].
+      * destruct k; [discriminate|]. cbn [pred]. apply IH. exact Hd.
+      * cbn [length]. rewrite (IH k Hd). reflexivity.
+Qed.
+
+Lemma text_len_laws_lemma :
+  text_len [] = 0 /\
+  (forall c s, is_brace c = false -> text_len (c :: s) = S (text_len s)) /\
+  (forall s, text_len (c_rbrace :: s) = text_len s) /\
+  (forall inner s, balanced inner ->
+     text_len (c_lbrace :: c_bslash :: inner ++ c_rbrace :: s) = S (text_len s)) /\
+  (forall g s, balanced g -> bs_head g = false ->
+     text_len (c_lbrace :: g ++ c_rbrace :: s) = count_nonbrace g + text_len s).
+Proof.
+  split; [reflexivity|]. split; [|split; [reflexivity|split]].
+  - intros c s H. unfold is_brace, is_lbrace, is_rbrace in H. apply orb_false_elim in H as [El Er].
+    unfold text_len. cbn [text_len_go]. rewrite El, Er. reflexivity.
+  - intros inner s Hb. unfold text_len. cbn [text_len_go Nat.eqb andb].
+    change (N.eqb c_lbrace c_lbrace) with true. change (N.eqb c_bslash c_bslash) with true.
+    change (N.eqb c_bslash c_lbrace) with false. change (N.eqb c_bslash c_rbrace) with false. cbv iota.
+    apply text_len_special_go. exact Hb.
+  - intros g s Hb Hh. unfold text_len. cbn [text_len_go Nat.eqb andb].
+    change (N.eqb c_lbrace c_lbrace) with true. cbv iota.
+    assert (E : match g ++ c_rbrace :: s with b :: _ => N.eqb b c_bslash | [] => false end = false).
+    { destruct g; [reflexivity|exact Hh]. }
+    rewrite E. apply text_len_group_go. exact Hb.
+Qed.
